@@ -516,9 +516,73 @@ def _inputs():
             "CL": [0] * NCYC}
 
 
+def _param_scenarios(res):
+    """replace_component on children whose construct() arguments were set with set_param (plain attribute, list
+    element addressed by index / by a regular expression, with parameters set one level down): the replacement
+    gets the parameters a fresh build gives it, so names and simulation equal those of the design built directly
+    with the replacement in place.  (Added after an independent observation: replacing a list element of a parent
+    that holds set_param entries raised NameError.)"""
+    import itertools
+    import c15_designs as D
+    from pymtl3 import DefaultPassGroup
+
+    def sim(top):
+        top.apply(DefaultPassGroup())
+        top.sim_reset()
+        outs = []
+        for v in (0, 1, 37, 200, 255):
+            top.in_ @= v
+            top.sim_eval_combinational()
+            outs.append([int(o) for o in top.out])
+            top.sim_tick()
+        return outs
+
+    def names(top):
+        return sorted(repr(o) for o in top.get_all_object_filter(lambda x: True))
+    n = 0
+    for r in range(len(D.PAR_SETS) + 1):
+        for sets in itertools.combinations(D.PAR_SETS, r):
+            for target in ("p", "xs[0]", "xs[1]"):
+                for twice in (False, True):
+                    tag = "%s:%s%s" % (target, "+".join(p for p, _ in sets) or "none", ":twice" if twice else "")
+                    fresh = D.ParTop(cls_of={target: D.ParLeafX})
+                    for p, v in sets:
+                        fresh.set_param(p, k=v)
+                    fresh.elaborate()
+                    exp_names, exp = names(fresh), sim(fresh)
+                    top = D.ParTop()
+                    for p, v in sets:
+                        top.set_param(p, k=v)
+                    top.elaborate()
+                    n += 1
+                    res.add_evals()
+                    res.distinct(("param-scenario", tag))
+                    try:
+                        if twice:
+                            top.replace_component(eval("top." + target), D.ParLeaf)
+                        top.replace_component(eval("top." + target), D.ParLeafX)
+                        got_names, got = names(top), sim(top)
+                    except Exception as e:      # noqa: BLE001
+                        res.violation("param:%s:%s:raises:%s" % (target.split("[")[0], "indexed-or-regex-param" if any("xs" in p for p, _ in sets) else "other-params", type(e).__name__),
+                                      "set_param %s, then replace_component(s.%s, ParLeafX)%s raises %s: %s"
+                                      % ([p for p, _ in sets], target, " (second replacement)" if twice else "", type(e).__name__, str(e)[:200]),
+                                      {"sets": [list(x) for x in sets], "target": target, "twice": twice})
+                        continue
+                    if got_names != exp_names:
+                        res.violation("param:%s:names-differ" % target.split("[")[0],
+                                      "set_param %s, replace_component(s.%s): name sets differ from the fresh build" % ([p for p, _ in sets], target),
+                                      {"only_replaced": sorted(set(got_names) - set(exp_names))[:10], "only_fresh": sorted(set(exp_names) - set(got_names))[:10]})
+                    elif got != exp:
+                        res.violation("param:%s:simulation-differs" % target.split("[")[0],
+                                      "set_param %s, replace_component(s.%s, ParLeafX): outputs %s, the design built directly gives %s"
+                                      % ([p for p, _ in sets], target, got[2], exp[2]), {"sets": [list(x) for x in sets], "target": target})
+    res.note("param_scenarios", n)
+
+
 def run(res, tier):
     from common import scratch
     quick = tier == "quick"
+    _param_scenarios(res)
     inputs = _inputs()
     F = Findings()
     for f in FAMILIES:
